@@ -23,7 +23,7 @@ def gen_case(rng, tier):
     r = rng.random()
     kind = rng.choice(['std', 'std', 'multi', 'derived'])
     if r < 0.08:
-        content, times = rng.choice([b'', b'\n', b'\n\n', b'x', b'x\n', b'\nx',
+        content, times = rng.choice([b'', b'\n', b'\n\n', b'x', b'x\n', b'\nx', b'\nab\ncd', b'\n\nab\n',
                                      b'x' * 256, b'x' * 257 + b'\n', b'\n' + b'y' * 255,
                                      b'a' * 512 + b'\n' + b'b' * 300]), []
     else:
@@ -36,7 +36,7 @@ def gen_case(rng, tier):
         if len(content) > 6000:
             content = content[:6000]
     cons = K.gen_since(rng, times, kind)
-    return {'content': content.hex(), 'cons': cons}
+    return {'content': content.hex(), 'cons': cons, 'order_seed': rng.randrange(1 << 30)}
 
 
 def gen_big_case(rng):
@@ -75,7 +75,8 @@ def eval_cases(rng, count, extra):
             case = gen_case(rng, extra.get('tier', 'quick'))
         content = case_content(case)
         offs = case.get('offsets')
-        impl = {'tfl': K.impl_tfl_all(content, case['cons'], offs),
+        impl = {'tfl': K.impl_tfl_all(content, case['cons'], offs,
+                                      order_seed=case.get('order_seed')),
                 'apply': K.impl_apply(content, case['cons'])}
         ops = ([['tfl', o] for o in offs] if offs is not None else [['tfl_all']])
         ops.append(['apply'])
@@ -112,6 +113,11 @@ def judge(rep, item, mobs):
         if ls != K.py_line_start(content, o) or le != K.py_line_end(content, o):
             raise core.Infra(f"Lean spec and harness spec of 'line at offset' disagree at {o}")
         in_limit = (le - ls) <= limit
+        if isinstance(irow, dict):
+            rep.fail('failing-input', case,
+                     f"try_find_line({o}) gave {irow['unstable'][0]} and later, on the same "
+                     f"seeker after other lookups, {irow['unstable'][1]}", impl=irow, spec=srow)
+            return
         if isinstance(irow, str):
             rep.count('lookup_' + irow)
             if in_limit or irow != 'maxLineLen':
